@@ -165,6 +165,63 @@ def adversarial(rnd):
     return out
 
 
+BUILTINS = ["appname", "version", "exec", "random", "get", "put", "dirscan"]
+
+
+def builtin_near_misses():
+    """Scripts with '%' + every proper prefix of every standard built-in name, and the name with one letter added or
+    changed, in lower / upper / mixed case, followed by '(' , ' )' and ' (' - none of the texts contains a back-quote,
+    %exec or %preproc, so no process may be created whatever the lookup does with them."""
+    out = []
+    for b in BUILTINS:
+        names = [b[:k] for k in range(1, len(b))] + [b + "x", b[:-1] + ("x" if b[-1] != "x" else "y"), "x" + b, b[1:]]
+        texts = []
+        for nm in names:
+            for v in (nm.lower(), nm.upper(), nm[:1].upper() + nm[1:].lower() if len(nm) > 1 else nm.upper()):
+                for form in ("%%%s(true)", "%%%s )", "%%%s (true)", "a %%%s(echo x) b"):
+                    t = (form % v).encode()
+                    if any(flags([t]).values()):
+                        continue             # e.g. %execx( contains %exec: a trigger by the statement's wording
+                    if t not in texts:
+                        texts.append(t)
+        s = Script("adv:builtin-prefix")
+        s.file("m.cfg", MAGIC + b"begin A\n" + b"".join(b"v " + t + b"\n" for t in texts) + b"end\n" + b"".join(t + b"\n" for t in texts[:12]))
+        s.init(); s.reg("null", 1); s.reg("A", 2)
+        s.parse("m.cfg")
+        for t in texts:
+            s.expand(t)
+        s.free()
+        out.append(s)
+    return out
+
+
+def find_boundary_sweep():
+    """spifconf_find_file() exactly at the capacity of its static path buffers: for a few name lengths every search-path
+    entry length from PATH_MAX-3-len(name) to PATH_MAX+1-len(name), with and without a trailing '/', as the second entry
+    behind a first entry that leaves a '/' (or not) at the decisive index, and as two consecutive calls (the buffers are
+    static, so what one lookup leaves is there for the next)."""
+    PM = 4096
+    out = []
+    for L in (1, 6, 100, 255):
+        s = Script("find-boundary")
+        s.file("here.cfg", MAGIC)
+        f = b"n" * L
+        for n in range(PM - 3 - L, PM + 2 - L):
+            for second in (b"a" * n, b"a" * (n - 1) + b"/"):
+                for first in (b"b" * (n - 1), b"b" * (n - 1) + b"/", b"b" * (n - 2) + b"/", b"b" * n):
+                    s.add("find %s - %s" % (bl(f), bl(first + b":" + second)), op="find", f=L)
+                    s.add("find %s - %s" % (bl(f), bl(first)), op="find", f=L)
+                    s.add("find %s - %s" % (bl(f), bl(second)), op="find", f=L)
+        # the same with a dir component making up part of the name
+        d = b"d" * (L // 2 + 1)
+        nl = len(d) + 1 + L
+        for n in range(PM - 3 - nl, PM + 2 - nl):
+            s.add("find %s %s %s" % (bl(f), bl(d), bl(b"b" * (n - 1) + b":" + b"a" * n)), op="find", f=L)
+            s.add("find %s %s %s" % (bl(f), bl(d), bl(b"b" * (n - 1) + b"/:" + b"a" * n)), op="find", f=L)
+        out.append(s)
+    return out
+
+
 SOUP = [b"begin ", b"end", b"end ", b"%include ", b"%", b"$", b"${", b"$(", b"\\", b"'", b"\"", b"~", b"(", b")", b"}", b"#", b"<",
         b"%get(", b"%put(", b"%random(", b"%version", b"%appname()", b"%dirscan(", b"A", b"null", b"m.cfg", b" ", b"\t", b"\n", b"\n", b"\n"]
 TRIG = [b"`", b"%exec(", b"%preproc ", b"`ls`"]
@@ -527,7 +584,7 @@ def run(ctx):
     model_check(ctx)
     log("model checking done %.0fs" % (time.time() - ctx.t0))
     rnd = random.Random(ctx.seed)
-    adv = adversarial(rnd)
+    adv = adversarial(rnd) + builtin_near_misses()
     ev = drive(ctx, exe, adv, "adversarial")
     ctx.sample({"adversarial_families": sorted(set(re.sub(r"-\d+$", "", s.fam) for s in adv))})
     log("adversarial done %.0fs" % (time.time() - ctx.t0))
@@ -567,7 +624,7 @@ def run(ctx):
     for c0 in range(0, nsoup, 40000):
         drive(ctx, exe, soup[c0:c0 + 40000], "random-bytes-%d" % c0)
     log("random bytes done %.0fs" % (time.time() - ctx.t0))
-    drive(ctx, exe, find_cases(rnd, 300 if ctx.tier == "quick" else 6000), "find-file")
+    drive(ctx, exe, find_boundary_sweep() + find_cases(rnd, 300 if ctx.tier == "quick" else 6000), "find-file")
     tev = drive(ctx, exe, temp_cases(rnd, 1000 if ctx.tier == "quick" else 10000, ctx.rundir), "temp-file")
     ctx.cov["temp_files_created"] = sum(1 for e in tev if e["op"] == "temp")
     ctx.sample({"temp_event": next((e for e in tev if e["op"] == "temp"), None)})
